@@ -31,13 +31,15 @@ SYMS = ([["req", i, v] for i in (1, 2) for v in range(3)] + [["release", 1], ["r
         ["load", "json"], ["load", "bin"], ["restart", "json"], ["restart", "bin"]])
 RULE = ("small-scope sweep: all event sequences to length 3 (quick) / 5 (thorough) over a 14-symbol alphabet {request(id in {1,2}, via "
         "in {direct, 0o1, 0o21}), release(id), save json|bin, load json|bin, restart+load json|bin}; seeded sequences of length 4..8 over the same alphabet; seeded histories to length 30 "
-        "with IDs 1..255, vias of level 0..3 and repeated requests that fill parents completely; tables of 0..255 random entries saved and re-loaded by a fresh object in both formats. Non-trivial: at least one lease "
+        "with IDs 1..255, vias of level 0..3 and repeated requests that fill parents completely; pairs of requests in flight at once (the second arrives 0..70 ms after the first, "
+        "i.e. also while the master waits for the NETWORK_ACK of a routed reply); tables of 0..255 random entries saved and re-loaded by a fresh object in both formats. Non-trivial: at least one lease "
         "was granted; distinct = distinct event sequences")
 ASSUMPTIONS = ["requests are injected as frames on the master's pipes (a relayed request = origin rewritten to the via node)",
                "no crash consistency of the file is claimed: exact round trip only"]
 CLAUSES = {"injective": "never maps two node IDs to the same address; an ID that asks again keeps a single lease",
-           "lease": "valid direct child of the via node, never 0, never 0o4444, never leased to another ID", "reply": "reply travels back toward the requester carrying its ID",
+           "lease": "valid direct child of the via node, never 0, never 0o4444, never leased to another ID (also: never an address another ID was told in a reply and still holds)", "reply": "reply travels back toward the requester carrying its ID",
            "reuse": "a released address becomes available again", "persist": "save_dhcp()/load_dhcp() reproduce the table exactly in both file formats"}
+PROBES = ["request_pair"]
 SHRINK_KEYS = ("events",)
 CHUNK = 150
 
@@ -78,15 +80,21 @@ def make(i, base_seed, tier):
     if rng.random() < 0.75:
         # seeded sequences over the small alphabet, longer than the sweep reaches
         ev = []
+        xr = stream(seed, "ext")
         for _ in range(rng.randint(4, 8)):
             s = rng.choice(SYMS)
             ev.append(["req", s[1], VIAS[s[2]]] if s[0] == "req" else list(s))
+            if xr.random() < 0.15:
+                ev.append(_pair(xr, [1, 2, 3]))
         return {"seed": seed, "events": ev, "kind": "small_random"}
     ids = rng.sample(range(1, 256), rng.randint(2, 12))
     vias = [0o4444, 0o4444, 0o1, 0o2, 0o21, 0o321, 0o5, 0o15, 0o44, 0o444, 0o4, 0o344]
     ev = []
+    xr = stream(seed, "ext")
     for _ in range(rng.randint(5, 30)):
         k = rng.random()
+        if xr.random() < 0.1:
+            ev.append(_pair(xr, ids))
         if k < 0.6:
             ev.append(["req", rng.choice(ids), rng.choice(vias[:rng.choice([2, 4, 8, 12])])])
         elif k < 0.75:
@@ -94,6 +102,14 @@ def make(i, base_seed, tier):
         else:
             ev.append([rng.choice(["save", "load", "restart"]), rng.choice(["json", "bin"])])
     return {"seed": seed, "events": ev, "kind": "random"}
+
+
+def _pair(xr, ids):
+    """two requests in flight at once: the second arrives while the master handles the first - for a first request relayed
+    through a node below 0o1 that is while the master listens for the NETWORK_ACK of its routed reply"""
+    a, b_ = xr.sample(list(ids), 2) if len(ids) > 1 else (ids[0], ids[0])
+    gap = xr.choice([0, 300, 1500]) if xr.random() < 0.2 else xr.randint(2000, 70000)
+    return ["pair", a, xr.choice([0o21, 0o21, 0o11, 0o321, 0o31, 0o4444, 0o1]), b_, xr.choice([0o4444, 0o4444, 0o1, 0o21, 0o2, 0o321]), gap]
 
 
 def run(scn):
@@ -119,6 +135,30 @@ def _inv(res, table, where):
     return True
 
 
+def _told(res, w, a0, told, table, where):
+    """every MESH_ADDR_RESPONSE the master transmitted is a hand-out: the address must not be one another ID was told (and
+    has not released), and the table must book exactly that address to exactly that ID"""
+    for t in w.air.trace[a0:]:
+        if t["src"] != "M" or t["ack"] or len(t["data"]) < 10 or t["data"][6] != 128:
+            continue
+        _, _, _, _, nid = netref.unpack_header(t["data"])
+        addr = struct.unpack("<H", t["data"][8:10])[0]
+        for other, a in told.items():
+            if other != nid and a == addr and table.get(other) == a:
+                res.add("lease", {"kind": "handed_out_twice"}, "%s: id %d was told %o, which id %d was told before and still holds" % (where, nid, addr, other))
+                return False
+        told[nid] = addr
+    for t in w.air.trace[a0:]:
+        if t["src"] != "M" or t["ack"] or len(t["data"]) < 10 or t["data"][6] != 128:
+            continue
+        _, _, _, _, nid = netref.unpack_header(t["data"])
+        if table.get(nid) != told.get(nid):
+            res.add("reply", {"kind": "told_not_booked"}, "%s: id %d was told %o but the table books %s to it (table %r)"
+                    % (where, nid, told[nid], oct(table[nid]) if nid in table else "nothing", {k: oct(v) for k, v in table.items()}))
+            return False
+    return True
+
+
 def _run(scn, w, res):
     sim = w.sim
     rm = w.radio("M")
@@ -127,6 +167,9 @@ def _run(scn, w, res):
     rl = w.radio("L1")
     RF24Network(*w.bus(rl), 0o1)      # acknowledging listener; its application never runs
     inj = Injector(w, "INJ", channel=rm.r[5], rate=1, aw=5, crc=2, esb=True, dpl=True)
+    inj2 = Injector(w, "INJ2", channel=rm.r[5], rate=1, aw=5, crc=2, esb=True, dpl=True)
+    mcu2 = w.make_mcu("I2")
+    told = {}       # id -> address in the latest MESH_ADDR_RESPONSE transmitted for it (dropped on release / load)
     saved = {}      # fmt -> table at save time
     ever_leased = set()
     granted = 0
@@ -184,6 +227,8 @@ def _run(scn, w, res):
                 if bad:
                     res.add("lease", {"kind": bad.split(" %")[0].split(" 0o")[0]}, "request(id %d via %o) was leased %o: %s" % (nid, via, new, bad))
                     return
+            if not _told(res, w, a0, told, table, "request(id %d via %o)" % (nid, via)):
+                return
             # ---- reply on the air
             resp = [t for t in w.air.trace[a0:] if t["src"] == "M" and not t["ack"] and len(t["data"]) >= 8 and t["data"][6] == 128]
             changed = table != before or (nid in table)
@@ -207,6 +252,62 @@ def _run(scn, w, res):
             if nid not in before and len(free_before) >= 1 and new is None:
                 res.add("reuse", {"kind": "free_child_not_leased", "free": min(len(free_before), 2)},
                         "request(id %d via %o): children %r are free but no lease was granted (table %r)" % (nid, via, [oct(c) for c in free_before], {k: oct(v) for k, v in before.items()}))
+                return
+        elif ev[0] == "pair":
+            _, id1, via1, id2, via2, gap = ev
+            fid += 2
+            f1 = netref.pack_header(via1, 0, fid - 1, 195, id1)
+            f2 = netref.pack_header(via2, 0, fid, 195, id2)
+            a0 = len(w.air.trace)
+            rl.rx_fifo.clear()
+
+            def second():
+                sim.advance(gap * US)
+                inj2.send(rm.pipe_addr(netref.child_pipe(via2 & 7) if via2 != 0o4444 else 0), f2, want_ack=False, settle=False)
+            t2 = sim.spawn("inj2", second, mcu2)
+            inj.send(rm.pipe_addr(netref.child_pipe(via1 & 7) if via1 != 0o4444 else 0), f1, want_ack=False, settle=False)
+            try:
+                for k in range(40):
+                    master.update()
+                    rl.rx_fifo.clear()
+                    if t2.done and not rm.rx_fifo and k >= 3:
+                        break
+                    if not t2.done:
+                        sim.advance(2 * MS)
+                sim.join([t2], timeout=500 * MS)
+                for _ in range(3):
+                    master.update()
+            except SimAbort:
+                raise
+            except Exception as e:
+                res.add("lease", {"kind": "update_raised", "exc": type(e).__name__}, "update() raised %r while handling requests id %d via %o / id %d via %o" % (e, id1, via1, id2, via2))
+                return
+            rl.rx_fifo.clear()
+            sim.count("request_pair")
+            table = dict(master.dhcp_dict)
+            where = "requests (id %d via %o) and, %d us later, (id %d via %o)" % (id1, via1, gap, id2, via2)
+            if not _inv(res, table, where):
+                return
+            others_now = {k: v for k, v in table.items() if k not in (id1, id2)}
+            others_before = {k: v for k, v in before.items() if k not in (id1, id2)}
+            if others_now != others_before:
+                res.add("injective", {"kind": "foreign_lease_changed", "after": "request"}, "%s changed other IDs' leases: %r -> %r"
+                        % (where, {k: oct(v) for k, v in others_before.items()}, {k: oct(v) for k, v in others_now.items()}))
+                return
+            for nid, via in ((id1, via1), (id2, via2)):
+                new = table.get(nid)
+                if new is None:
+                    continue
+                if new != before.get(nid):
+                    granted += 1
+                    # which of two requests of ONE id (via different nodes) won is not prescribed; a child of either is fine
+                    okp = {0 if v == 0o4444 else v for (i_, v) in ((id1, via1), (id2, via2)) if i_ == nid}
+                    if not netref.valid_addr_doc(new) or new in (0, 0o4444) or netref.parent(new) not in okp:
+                        res.add("lease", {"kind": "invalid address" if (not netref.valid_addr_doc(new) or new in (0, 0o4444)) else "not a direct child of the via node"},
+                                "%s: id %d was leased %o" % (where, nid, new))
+                        return
+                ever_leased.add(new)
+            if not _told(res, w, a0, told, table, where):
                 return
         elif ev[0] == "fill":
             frng = stream(scn["seed"], "fill")
@@ -237,6 +338,7 @@ def _run(scn, w, res):
             except Exception as e:
                 res.add("reuse", {"kind": "update_raised", "exc": type(e).__name__}, "update() raised %r while handling a release from %o" % (e, addr))
                 return
+            told.pop(nid, None)
             if master.dhcp_dict.get(nid) == addr:
                 res.add("reuse", {"kind": "release_ignored"}, "MESH_ADDR_RELEASE from %o did not free the lease of id %d" % (addr, nid))
                 return
@@ -249,20 +351,33 @@ def _run(scn, w, res):
                 return
         elif ev[0] == "save":
             fmt = ev[1]
-            master.save_dhcp("t." + fmt, as_bin=fmt == "bin")
+            try:
+                master.save_dhcp("t." + fmt, as_bin=fmt == "bin")
+            except SimAbort:
+                raise
+            except Exception as e:
+                res.add("persist", {"kind": "save_raised", "fmt": fmt, "exc": type(e).__name__}, "save_dhcp(%s) of a table of %d entries raised %r" % (fmt, len(master.dhcp_dict), e))
+                return
             saved[fmt] = dict(master.dhcp_dict)
         elif ev[0] in ("load", "restart"):
             fmt = ev[1]
             if fmt not in saved:
                 continue
-            if ev[0] == "restart":
-                master = RF24Mesh(*bus, 0)     # MCU restart: a fresh object on the same radio; only the file survives
+            told.clear()    # the table is replaced wholesale: what nodes were told before is void
+            try:
+                if ev[0] == "restart":
+                    master = RF24Mesh(*bus, 0)     # MCU restart: a fresh object on the same radio; only the file survives
                 master.load_dhcp("t." + fmt, as_bin=fmt == "bin")
+            except SimAbort:
+                raise
+            except Exception as e:
+                res.add("persist", {"kind": "load_raised", "fmt": fmt, "exc": type(e).__name__}, "load_dhcp(%s) of a table of %d entries saved before raised %r" % (fmt, len(saved[fmt]), e))
+                return
+            if ev[0] == "restart":
                 if dict(master.dhcp_dict) != saved[fmt]:
                     res.add("persist", {"kind": "round_trip", "fmt": fmt}, "saved %r, a fresh master loaded %r (%s)" % ({k: oct(v) for k, v in saved[fmt].items()}, {k: oct(v) for k, v in master.dhcp_dict.items()}, fmt))
                     return
             else:
-                master.load_dhcp("t." + fmt, as_bin=fmt == "bin")
                 if not _inv(res, dict(master.dhcp_dict), "load(%s) into a live table" % fmt):
                     return
             bad_keys = [k for k in master.dhcp_dict if not isinstance(k, int)]
